@@ -269,12 +269,13 @@ inductive TResult where
   | panic
   deriving DecidableEq
 
-/-- `parse_target_path`. -/
-def parseTargetPath (t : List Char) : TResult :=
-  let (pfx, vt) := getTargetPrefix t
-  match parseValuePath vt with
+def TResult.ofPResult (pfx : Prefix) : PResult → TResult
   | .ok p => .ok ⟨pfx, p⟩
   | .err => .err
   | .panic => .panic
+
+/-- `parse_target_path`. -/
+def parseTargetPath (t : List Char) : TResult :=
+  TResult.ofPResult (getTargetPrefix t).1 (parseValuePath (getTargetPrefix t).2)
 
 end PathText
